@@ -39,6 +39,9 @@ def run(ctx):
         floors = [("f_compiled", 0.6 * n), ("c_compiled", 0.5 * nctx), ("c_compiled_ge2_includes", 0.25 * nctx),
                   ("c_compiled_ge2_funcs", 0.25 * nctx), ("c_compiled_with_data", 0.25 * nctx),
                   ("c_compiled_with_constraints", 0.15 * nctx), ("c_compiled_ge3_isa", 0.3 * nctx),
+                  # copy webs (one virtual copied from/to several others on different control-flow paths)
+                  ("c_compiled_with_copyweb_merge", 0.25 * nctx), ("c_compiled_ge2_copywebs", 0.1 * nctx),
+                  ("c_copyweb_vector", 0.03 * nctx), ("c_copyweb_physical_source", 0.03 * nctx),
                   ("isa_lists", 0.5 * (n + nctx))]
         # history in the process: the dirtying between the compared generations and the allocator histories must
         # really have happened, in every category (otherwise "nothing differed" means nothing)
@@ -61,7 +64,10 @@ def run(ctx):
         f"(c) {nctx} files built through build.Context — alternately the methods of a fresh context and the package-level functions on a "
         f"swapped-in fresh global context — with 1–3 functions, 7 signature shapes, Param/Load/Store of components, data sections "
         f"(GLOBL/DATA/ConstData, all constant types), constraints, docs, pragmas, comments, labels, locals, 0–3 extra #include lines, "
-        f"register pressure up to allocation failure, run through build.Main [include pass, pass.Compile, Output(goasm), Output(stubs)]. "
+        f"register pressure up to allocation failure, COPY WEBS (0-4 per function: one virtual register copied from 2-4 others — "
+        f"virtual or physical, 64/32-bit GP, XMM, opmask — on the arms of a compare-and-branch switch, or to several others, or "
+        f"loop-carried; the sources are older, mutually live at the dispatch and dead after their copy, so every source's register is "
+        f"a candidate for the merged one: the shape coalescing / affinity heuristics key on), run through build.Main [include pass, pass.Compile, Output(goasm), Output(stubs)]. "
         f"Each program is generated {runs} times in this process (other generations interleaved every 5th run) and once in each of "
         f"{procs} fresh processes (fresh map hash seeds; even children generate the programs forwards, odd ones backwards, routes "
         f"alternate); the digest asm bytes . stub bytes . (Allocation, ISA, LocalSize) — or the error text — must be identical in all "
@@ -87,7 +93,10 @@ def run(ctx):
     ctx.coverage["map_census"] = ("Gen.MapRanges (go/types over reg ir pass printer build gotypes buildtags attr operand x86 internal/prnt "
                                   "internal/stack src): range over map, maps.Keys/Values/All (not directly under slices.Sorted*), reflect "
                                   "MapKeys/MapRange/Seq, sync.Map.Range; obligation mapIterTypes_known = every (package, underlying map type) "
-                                  "enumerated is one with an order-independence theorem; sites are informational")
+                                  "enumerated is one with an order-independence theorem; mapIterShapes_known = every way in which an order leaves a "
+                                  "loop (first-match return, break, append, last-writer assignment, call, closure — syntactic flags per range "
+                                  "body) is one some known loop over that (package, map type) already has, with its theorem; loops that only do "
+                                  "keyed writes / commutative accumulation / all-or-nothing tests carry no flag; sites are informational")
     ctx.assumptions += [
         "PROVED about the models: generation_deterministic (Props/C17Pipeline) — liveness, interference edges, per-kind allocation, merge, ISA "
         "list and any function of (allocation lookup, ISA list) are independent of the enumeration order of every modelled map, for every "
@@ -100,8 +109,9 @@ def run(ctx):
         "the identity of the error returned by AllocateRegisters when allocators of two kinds fail differently depends on map order in the "
         "code (first failing kind in `range as`); both messages that can occur through pass.Compile are identical ('failed to allocate "
         "registers'), the model theorem therefore identifies all errors",
-        "a new loop over a map type that the same package already enumerates is NOT reported by the census (by design, to tolerate "
-        "refactorings); it is covered only by the measurement",
+        "a new loop over a map type that the same package already enumerates is reported by the census only when it lets the order "
+        "out in a way (flag) no known loop over that type does; a new loop with the flags of a known one (e.g. another append-then-"
+        "sort, another running minimum — possibly without the tie-break) is covered only by the measurement",
         "the package-level route runs on a fresh context swapped in through the verif hook build.VerifSwapContext; reuse of the one real "
         "global context for several build.Generate calls is not the same program twice and is out of scope",
         "printer.Config.Argv/Name are fixed by the harness: output that embeds the real command line differs between invocations by design",
